@@ -209,6 +209,7 @@ class NodalOp:
             "dom": domain_strategy(tier, max2=5, max3=3),
             "kind": st.sampled_from(["general", "thermo"]), "ndof": st.integers(1, 3),
             "shape": st.sampled_from(["m", "pm"]), "plane": st.sampled_from(["strain", "stress"]),
+            "cplx": st.sampled_from(["none", "none", "input", "operator"]),   # complex element data or operator
         })
 
     @staticmethod
@@ -223,10 +224,16 @@ class NodalOp:
             else:
                 em, xs = rnd(rng, (2, m)), (2, dom.nel)
             lab.append(f"opshape:{o['shape']}")
-            x = sig(rnd(rng, xs), "x")
+            x = sig(rnd(rng, xs, o.get("cplx") == "input"), "x")
+            if o.get("cplx") == "operator":
+                em = em + 1j * rnd(rng, em.shape)
+            if o.get("cplx", "none") != "none":
+                lab.append("cplx_" + o["cplx"])
             mod = pym.NodalOperation(x, sig(None, "u"), dom, em)
         else:
-            x = sig(rnd(rng, (dom.nel,)), "x")
+            x = sig(rnd(rng, (dom.nel,), o.get("cplx") == "input"), "x")
+            if o.get("cplx") == "input":
+                lab.append("cplx_input")
             mod = pym.ThermoMechanical(x, sig(None, "f"), dom, e_modulus=float(rng.uniform(0.5, 3)),
                                        poisson_ratio=float(rng.uniform(0, 0.45)), alpha=float(rng.uniform(0.1, 2)),
                                        plane=o["plane"])
